@@ -55,7 +55,7 @@ def cases(tier: str, seed: int) -> list[dict]:
     for r in range(rep):
         for kind in ["iso", "trans", "ortho"]:
             for dim, ps in [(3, False), (2, True), (2, False)]:
-                for axes in ["default", "orthonormal", "unnormalised"]:
+                for axes in ["default", "orthonormal", "unnormalised", "axis1-on-x", "axis2-on-y"]:
                     out.append({"sc": "law", "kind": kind, "dim": dim, "ps": ps, "axes": axes})
             out.append({"sc": "hetero", "kind": kind, "dim": [3, 2][r % 2], "ps": bool(r % 2), "form": ["Ne", "NePg"][r % 2]})
             out.append({"sc": "update", "kind": kind, "dim": [3, 2][r % 2], "ps": bool((r // 2) % 2)})
@@ -82,6 +82,17 @@ def cases(tier: str, seed: int) -> list[dict]:
 def _axes(rng, dim, cls):
     if cls == "default":
         return np.array([1.0, 0, 0]), np.array([0, 1.0, 0]), np.eye(3)
+    if cls in ("axis1-on-x", "axis2-on-y"):
+        # the material turned about one global axis: ONE of the two axes coincides with a global axis (any length), the other does not
+        th = float(rng.uniform(0.3, 2.8))
+        if dim == 2:
+            a1, a2 = (np.array([1.0, 0, 0]), np.array([0, -1.0, 0])) if cls == "axis1-on-x" else (np.array([-1.0, 0, 0]), np.array([0, 1.0, 0]))
+        elif cls == "axis1-on-x":
+            a1, a2 = np.array([1.0, 0, 0]), np.array([0, np.cos(th), np.sin(th)])
+        else:
+            a1, a2 = np.array([np.cos(th), 0, np.sin(th)]), np.array([0, 1.0, 0])
+        P = T.frame(a1, a2)
+        return a1 * float(rng.uniform(0.2, 5)), a2 * float(rng.uniform(0.2, 5)), P
     a1, a2 = gmat.random_axes(rng, dim)
     P = T.frame(a1, a2)
     if cls == "unnormalised":
@@ -343,6 +354,15 @@ def run_update(case, ctx, rng):
                     nw += 1
                     if reads == 0:
                         continue  # several writes before the next read
+                    if dim == 3 and rng.random() < 0.5:
+                        # the decomposition is the FIRST thing read after the write (before C or S)
+                        try:
+                            ci, Ei = law.Walpole_Decomposition()
+                            rec = sum(np.asarray(c_, float)[..., None, None] * np.asarray(E_) for c_, E_ in zip(ci, Ei))
+                            freshW = _make(kind, dim, p, a1, a2, ps)
+                            ctx.check("update-matches-fresh", relerr(rec, np.asarray(freshW.C)), 1e-10, key + "/Walpole-read-first", step=step)
+                        except AssertionError as e_:
+                            ctx.require("update-matches-fresh", False, key + "/Walpole-read-first/assertion", message=str(e_)[:160], step=step)
                     got_C = np.asarray(law.C) if reads == 1 else None
                     got_S = np.asarray(law.S)
                     fresh = _make(kind, dim, p, a1, a2, ps)
